@@ -1,6 +1,6 @@
 (* C16 - property theorems only. *)
 From Coq Require Import String List Permutation QArith Qcanon.
-Require Import PV.Json PV.Workspace PV.WorkspaceRun PV.WorkspaceThms PV.WorkspacePrune PV.WorkspaceSort PV.WorkspaceLik PV.WorkspaceJson PV.gen.FactsC16.
+Require Import PV.Json PV.Workspace PV.WorkspaceRun PV.WorkspaceThms PV.WorkspacePrune PV.WorkspaceSort PV.WorkspaceLik PV.WorkspaceJson PV.gen.FactsC16 PV.gen.WorkspaceGen PV.TieWorkspace.
 Import ListNotations.
 
 (* tie to the source: the join names accepted by combine; modifier types are checked against the types of all (name, type) pairs *)
@@ -126,6 +126,48 @@ Proof. exact canon_json_of_ws_inj. Qed.
 Theorem C16_document_canonical : forall w, canon (json_of_ws w) = json_of_ws w.
 Proof. exact json_of_ws_canonical. Qed.
 
+
+(* ---- tie to the source: the functions of pyhf/workspace.py translated to Gallina on every run (coq/gen/WorkspaceGen.v, written by
+   harness/props/c16_tie.py; the reading of the python values is stated in the header of that file) are the hand model, as functions on the
+   workspace AST ---- *)
+(* _join_items at the item types it is called with, all four join texts; deep: deep_merge_key='samples' *)
+Theorem C16_source_is_model_join_items : forall j,
+  (forall l r, gen_join_items_channel j l r = join_items channel c_name channel_eqb None j l r) /\
+  (forall l r, gen_join_items_channel_deep j l r = join_items channel c_name channel_eqb (Some merge_samples) j l r) /\
+  (forall l r, gen_join_items_observation j l r = join_items observation o_name observation_eqb None j l r) /\
+  (forall l r, gen_join_items_measurement j l r = join_items measurement me_name measurement_eqb None j l r) /\
+  (forall l r, gen_join_items_sample_left l r = join_items sample s_name sample_eqb None JLeft l r) /\
+  (forall l r, gen_join_items_pconfig_outer l r = join_items pconfig p_name pconfig_eqb None JOuter l r).
+Proof. intros j. repeat split; intros l r; [apply tie_join_items_channel|apply tie_join_items_channel_deep|apply tie_join_items_observation|
+  apply tie_join_items_measurement|apply tie_join_items_sample_left|apply tie_join_items_pconfig_outer]. Qed.
+Theorem C16_source_is_model_join_versions : forall j lv rv, gen_join_versions lv rv = join_versions j lv rv.
+Proof. exact tie_join_versions. Qed.
+Theorem C16_source_is_model_join_channels : forall j l r merge, gen_join_channels j l r merge = join_channels j l r merge.
+Proof. exact tie_join_channels. Qed.
+Theorem C16_source_is_model_join_observations : forall j l r, gen_join_observations j l r = join_observations j l r.
+Proof. exact tie_join_observations. Qed.
+Theorem C16_source_is_model_join_parameter_configs : forall l r, gen_join_parameter_configs l r = join_parameter_configs l r.
+Proof. exact tie_join_parameter_configs. Qed.
+Theorem C16_source_is_model_join_measurements : forall j l r, gen_join_measurements j l r = join_measurements j l r.
+Proof. exact tie_join_measurements. Qed.
+(* Workspace.combine: the refusal checks, which section is joined with which arguments (left / right order), the new document *)
+Theorem C16_source_is_model_combine : forall l r js merge validate, gen_combine l r js merge validate = combine l r js merge validate.
+Proof. exact tie_combine. Qed.
+(* _prune_and_rename / prune / rename (a selection that is None is the empty one); modifier types checked against the types of all pairs *)
+Theorem C16_source_is_model_prune_and_rename : forall w pm pt ps pc pme rm rs rc rme,
+  gen_prune_and_rename w pm pt ps pc pme rm rs rc rme
+  = prune_and_rename prune_types_via_dict w (od pm) (od pt) (od ps) (od pc) (od pme) (od rm) (od rs) (od rc) (od rme).
+Proof. rewrite C16_types_check. exact tie_prune_and_rename. Qed.
+Theorem C16_source_is_model_prune : forall w mods types samples chans meas,
+  gen_prune w mods types samples chans meas = prune prune_types_via_dict w (od mods) (od types) (od samples) (od chans) (od meas).
+Proof. rewrite C16_types_check. exact tie_prune. Qed.
+Theorem C16_source_is_model_rename : forall w mods samples chans meas,
+  gen_rename w mods samples chans meas = rename w (od mods) (od samples) (od chans) (od meas).
+Proof. exact tie_rename. Qed.
+(* Workspace.sorted: which lists are sorted by which key, on a deep copy *)
+Theorem C16_source_is_model_sorted : forall w, gen_sorted w = sorted w.
+Proof. exact tie_sorted. Qed.
+
 Print Assumptions C16_combine_none_disjoint.
 Print Assumptions C16_combine_refuses_iff.
 Print Assumptions C16_combine_result_valid.
@@ -144,3 +186,14 @@ Print Assumptions C16_prune_likelihood_of_remainder.
 Print Assumptions C16_rename_preserves_main_likelihood.
 Print Assumptions C16_document_determines_workspace.
 Print Assumptions C16_document_canonical.
+Print Assumptions C16_source_is_model_join_items.
+Print Assumptions C16_source_is_model_join_versions.
+Print Assumptions C16_source_is_model_join_channels.
+Print Assumptions C16_source_is_model_join_observations.
+Print Assumptions C16_source_is_model_join_parameter_configs.
+Print Assumptions C16_source_is_model_join_measurements.
+Print Assumptions C16_source_is_model_combine.
+Print Assumptions C16_source_is_model_prune_and_rename.
+Print Assumptions C16_source_is_model_prune.
+Print Assumptions C16_source_is_model_rename.
+Print Assumptions C16_source_is_model_sorted.
